@@ -44,7 +44,8 @@ LayerClauses(r) ==
                ELSE IF ud THEN {"C20.userdata_override"}
                ELSE IF r.exc = "" /\ r.islist /\ \E c \in cands : IsPerm(c, r.obs) THEN {"C20.list_order"}
                ELSE {"C20.file_wins"}
-          ELSE IF ud THEN {}                              \* a name defined nowhere: judged by the getter rows
+          \* mentioned nowhere in THIS construction (whatever earlier constructions of the process have read):
+          \* the built-in default; for a user data name: not defined
           ELSE IF r.exc # "" \/ r.obs # r.vals.d THEN {"C20.default_kept"} ELSE {}
    IN prop \cup div
 
